@@ -248,7 +248,11 @@ class Program:
         for f in self.files:
             t.setdefault(f.module, ("module", f.module))
             parts = f.module.split("::")
-            # only the full nested module identifier is an entry (A::B, not A) - see resolve.py
+            # `module A::B::C` declares A and A::B too: a name that designates an enclosing module designates a module, whether or
+            # not some file spells that module out (decided after a bug-hunting sub-agent showed that the tree used to make
+            # this depend on exactly that; repaired in the repository, see DESIGN.md section 7, row 29)
+            for k in range(1, len(parts)):
+                t.setdefault("::".join(parts[:k]), ("module", "::".join(parts[:k])))
             for d in f.defs:
                 _add(t, d)
         return t
